@@ -140,6 +140,11 @@ type Evidence struct {
 
 func writeEvidence(verifDir string, ev *Evidence) error {
 	dir := filepath.Join(verifDir, "evidence")
+	// A run against a scratch copy of the repository (seeded-change
+	// evaluation) must not overwrite the evidence of /repo itself.
+	if r := os.Getenv("VERIF_REPO"); r != "" && r != "/repo" {
+		dir = filepath.Join(verifDir, ".work", "evidence-of-scratch-runs")
+	}
 	if err := os.MkdirAll(dir, 0o755); err != nil {
 		return err
 	}
